@@ -17,6 +17,7 @@ are merged recursively (C25_mergeVal_spec).  Priority, lowest first:
   no "modes" member survives                                              C26_no_modes_key
   entries for other modes never take effect                               C26_other_modes_inert_mode / _top / _object
 -/
+import OccaProofs.Lemmas.JsonGenTie
 import OccaProofs.Lemmas.PropsLaws
 
 namespace Occa.Json.C26
